@@ -895,19 +895,28 @@ Proof.
   intros ([Ht1 Ht2] & H4 & Ha & Hp) Hl. unfold einv, tinv, pend_ok, pend_le in *.
   rewrite upd_table, upd_allowed.
   unfold enc_update_max_size. rewrite Ha.
-  destruct (e_size_update st) as [[old|mn mx]|].
+  destruct (e_size_update st) as [[old|mn mx]|] eqn:E0.
   - destruct (old <? N.min u 4096) eqn:E1; [destruct (et_max (e_table st) <? old) eqn:E2|];
       cbn [e_size_update]; rewrite ?N.ltb_lt, ?N.ltb_ge in *; repeat split; try assumption; lia.
   - destruct (N.min u 4096 <? mn) eqn:E1; cbn [e_size_update];
       rewrite ?N.ltb_lt, ?N.ltb_ge in *; repeat split; try assumption; lia.
   - destruct (N.min u 4096 =? et_max (e_table st)) eqn:E1; cbn [negb e_size_update].
-    + apply N.eqb_eq in E1. destruct (e_size_update st) as [[old|mn mx]|] eqn:E0;
-        repeat split; try assumption; lia.
+    + apply N.eqb_eq in E1. rewrite E0. repeat split; try assumption; lia.
     + repeat split; try assumption; lia.
 Qed.
 
+Lemma last_indep {A} : forall l (a d d' : A), last (a :: l) d = last (a :: l) d'.
+Proof.
+  induction l as [|y l IH]; intros a d d'; [reflexivity|].
+  change (last (a :: y :: l) d) with (last (y :: l) d).
+  change (last (a :: y :: l) d') with (last (y :: l) d'). apply IH.
+Qed.
+
 Lemma last_cons {A} (x : A) l d : last (x :: l) d = last l x.
-Proof. revert x d. induction l as [|y l IH]; intros x d; [reflexivity|]. cbn [last] in *. destruct l; [reflexivity|]. apply (IH y). Qed.
+Proof.
+  destruct l as [|y l]; [reflexivity|].
+  change (last (x :: y :: l) d) with (last (y :: l) d). apply last_indep.
+Qed.
 
 Lemma last_app {A} (a b : list A) d : last (a ++ b) d = last b (last a d).
 Proof.
@@ -992,15 +1001,378 @@ Proof.
     destruct (encode_loop_inv fl (rsz (e_table st) v) None (tinv_rsz _ _)) as [(t2 & o & Hl & Ht2 & Hm2)|Hf];
       rewrite ?Hl, ?Hf; [left|right; reflexivity].
     eexists _, _. split; [reflexivity|]. unfold einv, pend_le. cbn [e_table e_max_allowed e_size_update rsz et_max] in *.
-    repeat split; auto; lia.
+    repeat split; try apply Ht2; auto; lia.
   - destruct Hp as [Hp1 Hp2]. rewrite (table_resize_spec _ mn Ht).
     rewrite (table_resize_spec _ v (tinv_rsz _ _)). cbn [e_table e_max_allowed].
     destruct (encode_loop_inv fl (rsz (rsz (e_table st) mn) v) None (tinv_rsz _ _)) as [(t2 & o & Hl & Ht2 & Hm2)|Hf];
       rewrite ?Hl, ?Hf; [left|right; reflexivity].
     eexists _, _. split; [reflexivity|]. unfold einv, pend_le. cbn [e_table e_max_allowed e_size_update rsz et_max] in *.
-    repeat split; auto; lia.
+    repeat split; try apply Ht2; auto; lia.
   - destruct (encode_loop_inv fl (e_table st) None Ht) as [(t2 & o & Hl & Ht2 & Hm2)|Hf];
       rewrite ?Hl, ?Hf; [left|right; reflexivity].
     eexists _, _. split; [reflexivity|]. unfold einv, pend_le. cbn [e_table e_max_allowed e_size_update].
-    repeat split; auto; lia.
+    repeat split; try apply Ht2; auto; lia.
+Qed.
+
+Lemma sync_after (t2 : enc_table) (v lim allowed : N) :
+  tinv t2 -> et_max t2 = v -> v <= 4096 -> v <= lim -> allowed = 4096 ->
+  sync (mkEnc t2 allowed None) (mk_rstate (et_entries t2) v lim).
+Proof.
+  intros Ht Hm H4 Hl Ha. unfold sync, einv, pend_le.
+  cbn [e_table e_max_allowed e_size_update r_dyn r_max r_limit].
+  repeat split; try apply Ht; auto; lia.
+Qed.
+
+(* one block: the encoder's octets, read by the reference decoder (RFC clause 4.2 included) *)
+Lemma block_roundtrip (L : nat) st rs ups fl :
+  (4 <= L)%nat -> sync st rs -> block_ok fl = true ->
+  exists st2 out rs2,
+    enc_encode (fold_left enc_update_max_size ups st) fl = EOk (st2, out) /\
+    rfc_ref_decode_block hd L (last_limit rs ups) out = Some (submitted fl, rs2) /\
+    sync st2 rs2.
+Proof.
+  intros HL (Hi & Hnone & Hdyn & Hmax & Hlim) Hok.
+  unfold block_ok in Hok. apply andb_true_iff in Hok. destruct Hok as [Hnamed Hfields].
+  assert (Hp0 : pend_ok st (r_limit rs)) by (unfold pend_ok; rewrite Hnone; exact Hlim).
+  destruct (fold_upd_inv ups st (r_limit rs) Hi Hp0) as (Hi1 & Hp1 & Htab).
+  rewrite last_limit_spec.
+  remember (fold_left enc_update_max_size ups st) as st1 eqn:Est1.
+  remember (last ups (r_limit rs)) as lim eqn:Elim.
+  destruct Hi1 as (Ht1 & H41 & Ha1 & Hle1).
+  rewrite Hdyn, Hmax, <- Htab.
+  unfold enc_encode, encode_size_updates, rfc_ref_decode_block, ref_reduction_signalled, ref_decode_block.
+  cbn [r_limit r_dyn r_max].
+  unfold pend_ok, pend_le, submitted in *.
+  destruct (e_size_update st1) as [[v|mn v]|] eqn:Esu.
+  - (* One v *)
+    rewrite (table_resize_spec _ v Ht1). cbn [e_table e_max_allowed].
+    destruct (encode_loop_decode L HL fl (rsz (e_table st1) v) None [] (tinv_rsz _ _) Hle1 Hfields I (fun _ => Hnamed))
+      as (t2 & out & Hloop & Ht2 & Hm2 & Hdec).
+    cbn [rsz et_max et_entries] in Hm2, Hdec.
+    rewrite Hloop. eexists _, _, _. split; [reflexivity|].
+    rewrite (ref_update_step_update L lim v out HL Hp1 Hle1). rewrite orb_true_r.
+    rewrite (ref_block_update L lim _ _ _ v out HL Hp1 Hle1).
+    rewrite (ref_block_fields L lim _ _ v out _ _ Hdec).
+    + split; [reflexivity|]. apply sync_after; auto.
+    + rewrite app_length. pose proof (enc_size_update_len v). lia.
+  - (* Two mn v *)
+    destruct Hp1 as [Hmv Hvl]. destruct Hle1 as [Hmn4 Hv4].
+    rewrite (table_resize_spec _ mn Ht1). rewrite (table_resize_spec _ v (tinv_rsz _ _)).
+    cbn [e_table e_max_allowed].
+    destruct (encode_loop_decode L HL fl (rsz (rsz (e_table st1) mn) v) None [] (tinv_rsz _ _) Hv4 Hfields I (fun _ => Hnamed))
+      as (t2 & out & Hloop & Ht2 & Hm2 & Hdec).
+    cbn [rsz et_max et_entries] in Hm2, Hdec.
+    rewrite Hloop. eexists _, _, _. split; [reflexivity|].
+    rewrite <- app_assoc.
+    rewrite (ref_update_step_update L lim mn _ HL ltac:(lia) Hmn4). rewrite orb_true_r.
+    rewrite (ref_block_update L lim _ _ _ mn _ HL ltac:(lia) Hmn4).
+    assert (Hlen : (List.length (enc_size_update mn ++ enc_size_update v ++ out)
+                    = S (Nat.pred (List.length (enc_size_update mn)) + List.length (enc_size_update v ++ out)))%nat).
+    { rewrite app_length. pose proof (enc_size_update_len mn). lia. }
+    rewrite Hlen. cbn [Nat.add].
+    assert (Hmore : forall k fuel, ref_block hd L lim (S (k + fuel)) (evict_to mn (et_entries (e_table st1))) mn
+                      (enc_size_update v ++ out)
+                    = ref_block hd L lim (k + fuel) (evict_to v (evict_to mn (et_entries (e_table st1)))) v out).
+    { intros k fuel. apply ref_block_update; assumption. }
+    rewrite Hmore.
+    rewrite (ref_block_fields L lim _ _ v out _ _ Hdec).
+    + split; [reflexivity|]. apply sync_after; auto.
+    + rewrite app_length. pose proof (enc_size_update_len v). lia.
+  - (* no update pending *)
+    destruct (encode_loop_decode L HL fl (e_table st1) None [] Ht1 H41 Hfields I (fun _ => Hnamed))
+      as (t2 & out & Hloop & Ht2 & Hm2 & Hdec).
+    rewrite Hloop. eexists _, _, _. split; [reflexivity|]. cbn [app].
+    replace (et_max (e_table st1) <=? lim) with true by (symmetry; apply N.leb_le; exact Hp1).
+    cbn [orb].
+    rewrite (ref_block_fields L lim _ _ _ out _ _ Hdec); [|lia].
+    split; [reflexivity|]. apply sync_after; auto.
+Qed.
+
+(* ====================================================================================== *)
+(* I. histories: the property theorems *)
+
+(* a history: per block the values given to update_max_size before it (= the peer's
+   SETTINGS_HEADER_TABLE_SIZE values, in order) and the header list submitted *)
+Definition history : Type := list (list N * list field_in).
+
+Fixpoint enc_run (st : enc_state) (h : history) : eres (enc_state * list (list N)) :=
+  match h with
+  | [] => EOk (st, [])
+  | (ups, fl) :: h' =>
+    match enc_encode (fold_left enc_update_max_size ups st) fl with
+    | EFail e => EFail e
+    | EOk (st1, out) =>
+      match enc_run st1 h' with
+      | EFail e => EFail e
+      | EOk (st2, outs) => EOk (st2, out :: outs)
+      end
+    end
+  end.
+
+(* the peer: the reference decoder, told the same limits, fed the blocks in order;
+   RFC 7541 4.2 (a reduction has to be signalled) is part of [rfc_ref_decode_block] *)
+Fixpoint dec_run (L : nat) (rs : rstate) (h : history) (outs : list (list N))
+  : option (list (list (list N * list N))) :=
+  match h, outs with
+  | [], [] => Some []
+  | (ups, _) :: h', out :: outs' =>
+    match rfc_ref_decode_block huff_decode_opt L (last_limit rs ups) out with
+    | Some (fs, rs') =>
+      match dec_run L rs' h' outs' with
+      | Some r => Some (fs :: r)
+      | None => None
+      end
+    | None => None
+    end
+  | _, _ => None
+  end.
+
+Definition history_ok (h : history) : bool := forallb (fun b => block_ok (snd b)) h.
+
+Lemma run_roundtrip (L : nat) : (4 <= L)%nat -> forall h st rs,
+  sync st rs -> history_ok h = true ->
+  exists st' outs, enc_run st h = EOk (st', outs) /\
+    dec_run L rs h outs = Some (map (fun b => submitted (snd b)) h).
+Proof.
+  intros HL. induction h as [|[ups fl] h IH]; intros st rs Hs Hok.
+  - exists st, []. auto.
+  - cbn [history_ok forallb snd] in Hok. apply andb_true_iff in Hok. destruct Hok as [Hb Hok].
+    destruct (block_roundtrip L st rs ups fl HL Hs Hb) as (st2 & out & rs2 & Henc & Hdec & Hs2).
+    destruct (IH st2 rs2 Hs2 Hok) as (st' & outs & Hrun & Hd).
+    exists st', (out :: outs). cbn [enc_run dec_run map snd]. rewrite Henc, Hrun, Hdec, Hd. auto.
+Qed.
+
+Lemma sync_init m0 : sync (enc_new m0) (rstate_init (N.min m0 4096)).
+Proof.
+  unfold sync, einv, tinv, pend_le, enc_new, table_new, rstate_init, DEFAULT_MAX_ALLOWED_SIZE.
+  cbn [e_table e_max_allowed e_size_update et_size et_entries et_max r_dyn r_max r_limit table_size].
+  repeat split; lia.
+Qed.
+
+(* C10, round trip *)
+Theorem enc_roundtrip : forall (L : nat) (m0 : N) (h : history),
+  (4 <= L)%nat -> history_ok h = true ->
+  exists st outs,
+    enc_run (enc_new m0) h = EOk (st, outs) /\
+    dec_run L (rstate_init (N.min m0 4096)) h outs = Some (map (fun b => submitted (snd b)) h).
+Proof. intros L m0 h HL Hok. apply run_roundtrip; [assumption|apply sync_init|assumption]. Qed.
+
+(* ---- wf-free facts about every history ---- *)
+
+Lemma einv_init m0 : einv (enc_new m0) /\ pend_ok (enc_new m0) m0.
+Proof.
+  unfold einv, tinv, pend_le, pend_ok, enc_new, table_new, DEFAULT_MAX_ALLOWED_SIZE.
+  cbn [e_table e_max_allowed e_size_update et_size et_entries et_max table_size].
+  repeat split; lia.
+Qed.
+
+Definition allowed (m0 : N) (h : history) : N := last (concat (map fst h)) m0.
+
+Lemma run_inv : forall h st lim,
+  einv st -> pend_ok st lim -> e_size_update st = None ->
+  match enc_run st h with
+  | EOk (st', _) => einv st' /\ pend_ok st' (last (concat (map fst h)) lim) /\ e_size_update st' = None
+  | EFail e => e = NoPreviousName
+  end.
+Proof.
+  induction h as [|[ups fl] h IH]; intros st lim Hi Hp Hn; cbn [enc_run map fst concat].
+  - cbn [last]. auto.
+  - destruct (fold_upd_inv ups st lim Hi Hp) as (Hi1 & Hp1 & Htab).
+    destruct (enc_encode_inv _ fl Hi1) as [(st2 & out & Henc & Hi2 & Hn2 & Hm2)|Hf]; [|rewrite Hf; reflexivity].
+    rewrite Henc.
+    assert (Hp2 : pend_ok st2 (last ups lim)).
+    { unfold pend_ok. rewrite Hn2, Hm2. apply pend_ok_target. exact Hp1. }
+    specialize (IH st2 (last ups lim) Hi2 Hp2 Hn2).
+    destruct (enc_run st2 h) as [[st' outs]|e]; [|exact IH].
+    rewrite last_app. exact IH.
+Qed.
+
+(* C10: the only way `encode` can fail is the documented panic for a leading nameless field *)
+Theorem enc_never_panics : forall (m0 : N) (h : history) (e : fail),
+  enc_run (enc_new m0) h = EFail e -> e = NoPreviousName.
+Proof.
+  intros m0 h e H. destruct (einv_init m0) as [Hi Hp].
+  pose proof (run_inv h (enc_new m0) m0 Hi Hp eq_refl) as Hr. rewrite H in Hr. exact Hr.
+Qed.
+
+(* C10: the table never exceeds what the peer allowed.  [allowed m0 h] is the last value given
+   to update_max_size in the history (the initial size when there was none). *)
+Theorem enc_table_bound : forall (m0 : N) (h : history) st outs,
+  enc_run (enc_new m0) h = EOk (st, outs) ->
+  table_size (et_entries (e_table st)) = et_size (e_table st) /\
+  et_size (e_table st) <= et_max (e_table st) /\
+  et_max (e_table st) <= allowed m0 h /\
+  et_max (e_table st) <= 4096.
+Proof.
+  intros m0 h st outs H. destruct (einv_init m0) as [Hi Hp].
+  pose proof (run_inv h (enc_new m0) m0 Hi Hp eq_refl) as Hr. rewrite H in Hr.
+  destruct Hr as (([Hs Hm] & H4 & Ha & Hle) & Hpend & Hnone). unfold allowed.
+  unfold pend_ok in Hpend. rewrite Hnone in Hpend. repeat split; try lia.
+Qed.
+
+(* ---- reductions are signalled: minimum first, then the final value ---- *)
+
+(* update_max_size caps its argument *)
+Definition capv (st : enc_state) (u : N) : N := N.min u (e_max_allowed st).
+
+(* [lo] / [fin]: minimum / last of the capped values given since the last block *)
+Definition pend_spec (tmax lo fin : N) (su : option size_update) : Prop :=
+  lo <= fin /\
+  match su with
+  | None => lo = tmax /\ fin = tmax
+  | Some (One x) => x = fin /\ (lo = x \/ tmax <= lo)
+  | Some (Two mn x) => x = fin /\ mn = lo /\ mn <= tmax /\ mn <= x
+  end.
+
+Lemma upd_spec0 st u : e_size_update st = None ->
+  pend_spec (et_max (e_table st)) (capv st u) (capv st u) (e_size_update (enc_update_max_size st u)).
+Proof.
+  intros Hn. unfold pend_spec, enc_update_max_size, capv. rewrite Hn.
+  destruct (N.min u (e_max_allowed st) =? et_max (e_table st)) eqn:E; cbn [negb e_size_update].
+  - apply N.eqb_eq in E. rewrite Hn. lia.
+  - lia.
+Qed.
+
+Lemma upd_spec st lo fin u :
+  pend_spec (et_max (e_table st)) lo fin (e_size_update st) ->
+  pend_spec (et_max (e_table st)) (N.min lo (capv st u)) (capv st u)
+            (e_size_update (enc_update_max_size st u)).
+Proof.
+  unfold pend_spec, enc_update_max_size, capv. intros [Hlf H].
+  destruct (e_size_update st) as [[old|mn mx]|] eqn:E0.
+  - destruct H as [-> H].
+    destruct (fin <? N.min u (e_max_allowed st)) eqn:E1;
+      [destruct (et_max (e_table st) <? fin) eqn:E2|]; cbn [e_size_update];
+      rewrite ?N.ltb_lt, ?N.ltb_ge in *; lia.
+  - destruct H as (-> & -> & H1 & H2).
+    destruct (N.min u (e_max_allowed st) <? lo) eqn:E1; cbn [e_size_update];
+      rewrite ?N.ltb_lt, ?N.ltb_ge in *; lia.
+  - destruct H as [-> ->].
+    destruct (N.min u (e_max_allowed st) =? et_max (e_table st)) eqn:E1; cbn [negb e_size_update].
+    + apply N.eqb_eq in E1. rewrite E0. lia.
+    + apply N.eqb_neq in E1. lia.
+Qed.
+
+Lemma fold_spec : forall ups st lo fin,
+  pend_spec (et_max (e_table st)) lo fin (e_size_update st) ->
+  pend_spec (et_max (e_table st)) (fold_left N.min (map (capv st) ups) lo)
+            (last (map (capv st) ups) fin)
+            (e_size_update (fold_left enc_update_max_size ups st)) /\
+  e_table (fold_left enc_update_max_size ups st) = e_table st /\
+  e_max_allowed (fold_left enc_update_max_size ups st) = e_max_allowed st.
+Proof.
+  induction ups as [|u ups IH]; intros st lo fin H; cbn [fold_left map]; [auto|].
+  pose proof (upd_spec st lo fin u H) as H1.
+  rewrite <- (upd_table st u) in H1.
+  destruct (IH _ _ _ H1) as (H2 & H3 & H4).
+  assert (Hc : forall x, capv (enc_update_max_size st u) x = capv st x).
+  { intros x. unfold capv. rewrite upd_allowed. reflexivity. }
+  rewrite (map_ext _ _ Hc) in H2. rewrite upd_table in H2. rewrite last_cons.
+  rewrite H3, H4, upd_table, upd_allowed. auto.
+Qed.
+
+Theorem enc_reduction_signalled : forall st u ups fl st2 out,
+  tinv (e_table st) -> e_size_update st = None ->
+  let vs := map (capv st) ups in
+  let lo := fold_left N.min vs (capv st u) in
+  let fin := last vs (capv st u) in
+  lo < et_max (e_table st) ->
+  enc_encode (fold_left enc_update_max_size (u :: ups) st) fl = EOk (st2, out) ->
+  exists t1 rest,
+    (out = enc_size_update lo ++ rest \/ out = enc_size_update lo ++ enc_size_update fin ++ rest) /\
+    (lo <> fin -> out = enc_size_update lo ++ enc_size_update fin ++ rest) /\
+    et_max t1 = fin /\ encode_loop t1 None fl = EOk (e_table st2, rest) /\
+    et_max (e_table st2) = fin.
+Proof.
+  intros st u ups fl st2 out Ht Hn vs lo fin Hlo Henc. cbn [fold_left] in Henc.
+  pose proof (upd_spec0 st u Hn) as H0. rewrite <- (upd_table st u) in H0.
+  destruct (fold_spec ups _ _ _ H0) as (Hspec & Htab & Hall).
+  assert (Hc : forall x, capv (enc_update_max_size st u) x = capv st x).
+  { intros x. unfold capv. rewrite upd_allowed. reflexivity. }
+  rewrite (map_ext _ _ Hc) in Hspec. rewrite upd_table in Hspec, Htab.
+  fold vs in Hspec. fold lo in Hspec. fold fin in Hspec.
+  remember (fold_left enc_update_max_size ups (enc_update_max_size st u)) as st1 eqn:Est1.
+  assert (Ht1 : tinv (e_table st1)) by (rewrite Htab; exact Ht).
+  unfold enc_encode, encode_size_updates in Henc. unfold pend_spec in Hspec.
+  destruct Hspec as [Hlf Hspec].
+  destruct (e_size_update st1) as [[x|mn x]|].
+  - destruct Hspec as [-> Hx]. assert (Hlx : lo = fin) by lia.
+    rewrite (table_resize_spec _ fin Ht1) in Henc. cbn [e_table e_max_allowed] in Henc.
+    destruct (encode_loop_inv fl (rsz (e_table st1) fin) None (tinv_rsz _ _)) as [(t2 & o & Hl & Ht2 & Hm2)|Hf];
+      [rewrite Hl in Henc|rewrite Hf in Henc; discriminate].
+    inversion Henc; subst st2 out. clear Henc.
+    exists (rsz (e_table st1) fin), o. cbn [e_table rsz et_max] in *.
+    rewrite Hlx. split; [left; reflexivity|]. split; [congruence|]. auto.
+  - destruct Hspec as (-> & -> & Hm1 & Hm2).
+    rewrite (table_resize_spec _ lo Ht1) in Henc.
+    rewrite (table_resize_spec _ fin (tinv_rsz _ _)) in Henc. cbn [e_table e_max_allowed] in Henc.
+    destruct (encode_loop_inv fl (rsz (rsz (e_table st1) lo) fin) None (tinv_rsz _ _)) as [(t2 & o & Hl & Ht2 & Hm3)|Hf];
+      [rewrite Hl in Henc|rewrite Hf in Henc; discriminate].
+    inversion Henc; subst st2 out. clear Henc.
+    exists (rsz (rsz (e_table st1) lo) fin), o. cbn [e_table rsz et_max] in *.
+    rewrite <- app_assoc. auto.
+  - destruct Hspec as [Hl1 Hl2]. lia.
+Qed.
+
+(* ---- framing ---- *)
+
+(* how a block was cut into HEADERS / CONTINUATION fragments is invisible to the decoder: it
+   only ever sees the concatenation (the framing itself is property C12) *)
+Theorem split_irrelevant :
+  forall (hdf : list N -> option (list N)) (L : nat) (rs : rstate) (frags : list (list N)) (block : list N),
+  concat frags = block ->
+  ref_decode_block hdf L rs (concat frags) = ref_decode_block hdf L rs block.
+Proof. intros hdf L rs frags block ->. reflexivity. Qed.
+
+(* ---- sensitive headers ---- *)
+
+(* a sensitive header (HeaderValue::set_sensitive) never changes the dynamic table *)
+Theorem sensitive_not_inserted : forall t h,
+  tinv t -> hdr_is_sensitive h = true ->
+  exists idx octets, table_index t h = EOk (t, idx) /\ encode_header idx h = EOk octets.
+Proof.
+  intros t h Ht Hs. destruct (table_index_ok t h Ht) as (t' & idx & octets & H1 & H2 & _ & _ & H5).
+  rewrite (H5 Hs) in H1. eauto.
+Qed.
+
+(* ---- the hypotheses are satisfiable, the conclusions are not vacuous ---- *)
+
+Local Open Scope string_scope.
+
+Definition demo_history : history :=
+  [ ([], [FI (Some (bstr ":method")) (bstr "GET") false;
+          FI (Some (bstr ":path")) (bstr "/index.php") false;
+          FI (Some (bstr "x-custom")) (bstr "one") false;
+          FI None (bstr "two") false;
+          FI (Some (bstr "authorization")) (bstr "secret") true;
+          FI (Some (bstr "x-token")) (bstr "hunter2") true]);
+    ([100; 4096], [FI (Some (bstr "x-custom")) (bstr "one") false;
+                   FI (Some (bstr "x-custom")) (bstr "three") false;
+                   FI (Some (bstr "accept")) (bstr "") false]);
+    ([0], [FI (Some (bstr "x-custom")) (bstr "one") false]) ].
+
+Example demo_history_ok : history_ok demo_history = true.
+Proof. vm_compute. reflexivity. Qed.
+
+Example demo_roundtrip :
+  history_ok demo_history = true /\
+  match enc_run (enc_new 4096) demo_history with
+  | EOk (_, outs) =>
+    dec_run 4 (rstate_init 4096) demo_history outs
+    = Some (map (fun b => submitted (snd b)) demo_history) /\
+    map (fun o => hd_error o) outs = [Some 130; Some 63; Some 32]
+  | EFail _ => False
+  end.
+Proof. vm_compute. auto. Qed.
+
+Example demo_reduction :
+  let st := enc_new 4096 in
+  tinv (e_table st) /\ e_size_update st = None /\
+  fold_left N.min (map (capv st) [4096]) (capv st 100) < et_max (e_table st) /\
+  exists st2 out, enc_encode (fold_left enc_update_max_size [100; 4096] st)
+                             [FI (Some (bstr "a")) (bstr "b") false] = EOk (st2, out).
+Proof.
+  cbv zeta. split; [split; vm_compute; [reflexivity|discriminate]|].
+  split; [reflexivity|]. split; [vm_compute; reflexivity|].
+  eexists _, _. vm_compute. reflexivity.
 Qed.
